@@ -385,7 +385,19 @@ pub fn check_stream_case(case: &StreamCase, refs: &mut Refs, mon: &mut Mon) {
     let j = run.fired_item.unwrap_or(0);
     match first.hard {
         None => {
-            // O6.4: an early end of stream is a prefix
+            // O6.4: an early end of stream is a prefix - when it is an end. A plan
+            // from the history engines may hold a one-shot `Ok(0)` followed by more
+            // data (a peer that pauses); single-shot parsing of such a stream reads on
+            // while it unwinds and may name another construct in its EOF error. That
+            // is not an end of stream and is not judged here (the E-STREAM sweep only
+            // uses final ends).
+            // Nor is a plan in which a second fault (a read error at the same offset)
+            // fired after the end: the result is then rightly that error.
+            let is_final = (case.plan.faults.iter().any(|f| f.id == first.id && f.sticky) || run.shared.delivered.get() <= first.at) && fired.len() == 1;
+            if !is_final {
+                mon.count("c06.eof_oneshot_not_judged");
+                return;
+            }
             mon.count("c06.eof_fired");
             let pre = refs.prefix(case, first.at, mon);
             if !equiv_seq(&run.items, pre) {
